@@ -71,7 +71,7 @@ Proof. exact safe_dec_cursor. Qed.
         and the three Tight checks (bits 1..3) in place, UltraZip and Tight rectangles can no longer leave an
         object either, whatever the server sends: an out-of-bounds access of the repaired mirror can only
         originate in a TRLE / ZRLE rectangle; those are covered by the full theorem [C08_no_oob_write] below. *)
-Definition fixes_0_3 (s : cst) : Prop := fixed s 0 = true /\ fixed s 1 = true /\ fixed s 2 = true /\ fixed s 3 = true.
+Definition fixes_0_3 (s : cst) : Prop := fixed s 0 = true /\ fixed s 1 = true /\ fixed s 2 = true /\ fixed s 3 = true /\ fixed s 9 = true.
 
 Theorem C08_no_oob_write_fixes_0_3 : forall s ts c,
   st_ok s -> fixes_0_3 s -> handle_msg s ts = Oob c ->
@@ -88,9 +88,9 @@ Proof.
 Qed.
 
 Theorem C08_no_oob_ultrazip_fixed : forall rx ry rw rh s ts,
-  st_ok s -> fixed s 0 = true -> match dec_ultrazip rx ry rw rh s ts with Oob _ => False | _ => True end.
+  st_ok s -> fixed s 0 = true -> fixed s 9 = true -> match dec_ultrazip rx ry rw rh s ts with Oob _ => False | _ => True end.
 Proof.
-  intros rx ry rw rh s ts Hs Hf. pose proof (safe_dec_ultrazip rx ry rw rh s ts Hs Hf) as H.
+  intros rx ry rw rh s ts Hs Hf Hf9. pose proof (safe_dec_ultrazip rx ry rw rh s ts Hs (conj Hf Hf9)) as H.
   destruct (dec_ultrazip rx ry rw rh s ts); auto.
 Qed.
 
@@ -105,12 +105,12 @@ Proof.
 Qed.
 
 (* ---- THE WHOLE REPAIRED MIRROR (fix bits 0..6 and 8 = library commits dd06ff7, 0870444, 01fc326, 6de7bdd, d9a5962,
-        112b5b7, a7a3a60, 281f33a; the baseline [init_state] has them all): no server input makes
+        112b5b7, a7a3a60, 281f33a - the baseline [init_state] has them - plus bit 9 = notes/fix_C08_9.diff, proposed): no server input makes
         HandleRFBServerMessage's mirror leave an object - no exception list.  (Bit 7 = d211e4c only selects the
         CPIXEL width of 16-bpp clients; the statement holds with and without it.) *)
 Definition fixes_all (s : cst) : Prop :=
   fixed s 0 = true /\ fixed s 1 = true /\ fixed s 2 = true /\ fixed s 3 = true /\
-  fixed s 4 = true /\ fixed s 5 = true /\ fixed s 6 = true /\ fixed s 8 = true.
+  fixed s 4 = true /\ fixed s 5 = true /\ fixed s 6 = true /\ fixed s 8 = true /\ fixed s 9 = true.
 
 Theorem C08_no_oob_write : forall s ts c, st_ok s -> fixes_all s -> handle_msg s ts <> Oob c.
 Proof.
@@ -142,13 +142,23 @@ Proof.
   pose proof (safe_dec_trle x y w h Hx Hy s ts Hs (conj F4 (conj HW HH))) as H. rewrite E in H. exact H.
 Qed.
 
-Example C08_no_oob_write_nonvacuous : st_ok (init_state f888 255 16 16) /\ fixes_all (init_state f888 255 16 16).
+Example C08_no_oob_write_nonvacuous :
+  st_ok (set_fix (init_state f888 255 16 16) 1023) /\ fixes_all (set_fix (init_state f888 255 16 16) 1023).
 Proof.
   split; [split; [apply init_state_wf; lia|unfold bypp_pos; cbn; lia]|]. repeat split; reflexivity.
 Qed.
 
+(* bit 9 (notes/fix_C08_9.diff, finding C08-F29) is NOT in the library yet: on the baseline flow a fresh client crashes
+   on an UltraZip rectangle whose width makes ry + rw * 65535 overflow [int] *)
+Theorem C08_ultrazip_hugew_refuted : exists s ts c, st_ok s /\ c_fix s = 511 /\ handle_msg s ts = Oob c.
+Proof.
+  exists (init_state f888 255 16 16), w_ultrazip_hugew, 45.
+  split; [split; [apply init_state_wf; lia|unfold bypp_pos; cbn; lia]|split; [reflexivity|exact w_ultrazip_hugew_oob]].
+Qed.
+
 (* the baseline state of the mirror satisfies the hypotheses *)
-Example C08_no_oob_fixed_nonvacuous : st_ok (init_state f888 255 16 16) /\ fixes_0_3 (init_state f888 255 16 16).
+Example C08_no_oob_fixed_nonvacuous :
+  st_ok (set_fix (init_state f888 255 16 16) 1023) /\ fixes_0_3 (set_fix (init_state f888 255 16 16) 1023).
 Proof.
   split; [split; [apply init_state_wf; lia|unfold bypp_pos; cbn; lia]|]. repeat split; reflexivity.
 Qed.
